@@ -114,7 +114,7 @@ func (f *Formula) atoms(into map[string]bool) {
 type scope struct {
 	info  *types.Info
 	env   map[types.Object]string
-	local bool // identifiers of the analysed function may occur (aliases / ok-vars resolve)
+	local bool                      // identifiers of the analysed function may occur (aliases / ok-vars resolve)
 	bdef  map[types.Object]*Formula // boolean locals of an inlined predicate (defined once, before use)
 }
 
@@ -1165,6 +1165,103 @@ func (e *FactEngine) newUniverse(req *Formula, body *ast.BlockStmt, target ...as
 			}
 		}
 	}
+	// result flags: `if <tracked> { v = nil|&T{}|const } else { v = … }` makes v's nil-ness / value a
+	// witness of the tracked condition; later tests of v then decide it
+	if body != nil {
+		sc := e.fnScope()
+		// tracked boolean variables: the atoms of what they are assigned
+		for round := 0; round < 2; round++ {
+			ast.Inspect(body, func(n ast.Node) bool {
+				as, ok := n.(*ast.AssignStmt)
+				if !ok || len(as.Lhs) != len(as.Rhs) {
+					return true
+				}
+				for i, l := range as.Lhs {
+					id, ok := l.(*ast.Ident)
+					if !ok || id.Name == "_" {
+						continue
+					}
+					t := sc.info.TypeOf(l)
+					if t == nil {
+						continue
+					}
+					if b, ok := t.Underlying().(*types.Basic); !ok || b.Kind() != types.Bool {
+						continue
+					}
+					if _, isVar := sc.info.ObjectOf(id).(*types.Var); !isVar {
+						continue
+					}
+					if !m[strings.TrimPrefix(e.canon(l, sc, nil), "&")] {
+						continue
+					}
+					am := map[string]bool{}
+					e.boolForm(as.Rhs[i], sc).atoms(am)
+					if len(m)+len(am) <= 15 {
+						for a := range am {
+							m[a] = true
+						}
+					}
+				}
+				return true
+			})
+		}
+		for round := 0; round < 2; round++ {
+			ast.Inspect(body, func(n ast.Node) bool {
+				is, ok := n.(*ast.IfStmt)
+				if !ok || len(m) >= 14 {
+					return true
+				}
+				am := map[string]bool{}
+				e.boolForm(is.Cond, sc).atoms(am)
+				share := false
+				for a := range am {
+					if m[a] {
+						share = true
+					}
+				}
+				if !share {
+					return true
+				}
+				blocks := []*ast.BlockStmt{is.Body}
+				if eb, ok := is.Else.(*ast.BlockStmt); ok {
+					blocks = append(blocks, eb)
+				}
+				for _, b := range blocks {
+					for _, st := range b.List {
+						as, ok := st.(*ast.AssignStmt)
+						if !ok || len(as.Lhs) != len(as.Rhs) {
+							continue
+						}
+						for i, l := range as.Lhs {
+							if id, ok := l.(*ast.Ident); !ok || id.Name == "_" {
+								continue
+							}
+							t := sc.info.TypeOf(l)
+							if t == nil {
+								continue
+							}
+							var paths []string
+							lc := strings.TrimPrefix(e.canon(l, sc, &paths), "&")
+							rc := e.canon(as.Rhs[i], sc, nil)
+							switch t.Underlying().(type) {
+							case *types.Pointer, *types.Interface, *types.Map, *types.Slice, *types.Signature, *types.Chan:
+								if f := e.eqAtom(lc, "nil", paths); f.k == fAtom && len(m) < 14 {
+									m[f.atom] = true
+								}
+							default:
+								if strings.HasPrefix(rc, "#") {
+									if f := e.eqAtom(lc, rc, paths); f.k == fAtom && len(m) < 14 {
+										m[f.atom] = true
+									}
+								}
+							}
+						}
+					}
+				}
+				return true
+			})
+		}
+	}
 	var as []string
 	for a := range m {
 		as = append(as, a)
@@ -1854,6 +1951,38 @@ func (w *walker) assign(lhs ast.Expr, rhs ast.Expr, s vset) vset {
 		}
 	}
 	p := strings.TrimPrefix(w.e.canon(lhs, w.sc, nil), "&")
+	// boolean assignment x = E: afterwards x holds what E evaluated to
+	if rhs != nil {
+		if b, ok := w.sc.info.TypeOf(lhs).Underlying().(*types.Basic); ok && b.Kind() == types.Bool {
+			if i, tracked := w.u.idx[p]; tracked {
+				f := w.e.boolForm(rhs, w.sc)
+				am := map[string]bool{}
+				f.atoms(am)
+				all := true
+				for a := range am {
+					if _, in := w.u.idx[a]; !in {
+						all = false
+					}
+				}
+				if all {
+					ns := newVset(len(w.u.atoms))
+					for v := 0; v < 1<<uint(len(w.u.atoms)); v++ {
+						if !s.has(v) {
+							continue
+						}
+						nv := v &^ (1 << uint(i))
+						if evalFormula(f, w.u, v) {
+							nv |= 1 << uint(i)
+						}
+						if w.u.valid.has(nv) {
+							ns.set(nv)
+						}
+					}
+					return ns
+				}
+			}
+		}
+	}
 	// integer copy / constant assignment: linear atoms over p take the value the
 	// substituted comparison had before the assignment
 	if rhs != nil && isIntegerType(w.sc.info.TypeOf(lhs)) {
